@@ -73,3 +73,10 @@ def classes(r):
             elif o["call"] == 5:
                 cl.append("once:" + o["timings"][0][0])
     return sorted(set(cl))
+
+
+# ---- asyncio share (the property's one-shot mapping and cadence are shared code used by both front ends)
+from .. import aiomix  # noqa: E402
+
+aiomix.install(globals(), 0.2, aiomix.c03_scenarios, lambda r: aiomix.c03_specs(r, c01.tm_tokens),
+               note="cyclic jobs (delay=False in 20%) and one-shots of all four kinds; Spec: once_* due instants, cadence of every coroutine start, no task error")
